@@ -393,6 +393,7 @@ class Check:
         self.violations = []
         self.known_hits = []
         self.unconfirmed = []
+        self.replay_errors = 0
         self.notes = []
         self.functions = {}
         self.timeout_ms = 60000 if tier == "quick" else 300000
@@ -427,7 +428,9 @@ class Check:
                 try:
                     ok, detail = replay_fn(c)
                 except HarnessError as e:
+                    # a crashing replay action would silently lose a candidate: that is a harness error (exit 3), not "unconfirmed"
                     self.notes.append(f"replay error: {e}")
+                    self.replay_errors += 1
                     ok, detail = False, {"error": str(e)}
                 entry = {"obligation": c["obligation"], "config": c["config"], "input": c["input"], "detail": detail}
                 if ok:
@@ -476,7 +479,7 @@ class Check:
             path = os.path.join(rep_dir, f"{self.pid}-{i}.json")
             json.dump({"property": self.pid, **v}, open(path, "w"), indent=1, default=str)
             lines.append(f"VIOLATION property={self.pid} replay={path}")
-        harness_error = bool(errors) or bool(vac_bad) or self.validation["mismatches"] > 0 or bool(cross_disagree)
+        harness_error = bool(errors) or bool(vac_bad) or self.validation["mismatches"] > 0 or bool(cross_disagree) or self.replay_errors > 0
         if cross_disagree:
             self.notes.append(f"cvc5 disagrees with z3 on {len(cross_disagree)} queries, e.g. {cross_disagree[0]['name']}")
         ev = {
